@@ -22,7 +22,7 @@ type opCase struct {
 	Excluded []string `json:"excluded,omitempty"` // informational: known findings the generator steered away from
 }
 
-var opsPart = pbt.Part[opCase]{Name: "reformulations", Quick: 24000, Thorough: 400000, Gen: genOpCase, Check: checkOpCase}
+var opsPart = pbt.Part[opCase]{Name: "reformulations", Quick: 20000, Thorough: 240000, Gen: genOpCase, Check: checkOpCase}
 
 // unitCase executes the solo probe of one unit (shape oracle only): no unit may be silently
 // unusable.
@@ -114,7 +114,11 @@ func genOpCase(t *rapid.T) opCase {
 	if err != nil {
 		panic(err)
 	}
-	maxDepth := rapid.IntRange(2, 5).Draw(t, "maxDepth")
+	hi := 5
+	if os.Getenv("VERIF_TIER") == "thorough" {
+		hi = 6 // tier size parameter (configuration, not randomness)
+	}
+	maxDepth := rapid.IntRange(2, hi).Draw(t, "maxDepth")
 	excluded := map[string]bool{}
 	base := genBase(t, w, usableFor(rigName), maxDepth, excluded)
 	re, kind := reformulate(t, w, base)
@@ -145,6 +149,15 @@ func steer(w *world, o *opTree, excluded map[string]bool) string {
 		}
 		drops := w.aliasDropSites(p)
 		multi := w.typenameMultiSites(p)
+		if len(drops) == 0 && len(multi) == 0 {
+			return text
+		}
+		if !steering(findAliasDrop) {
+			drops = nil
+		}
+		if !steering(findTypenameKeys) {
+			multi = nil
+		}
 		if len(drops) == 0 && len(multi) == 0 {
 			return text
 		}
@@ -292,6 +305,17 @@ func runOne(g *rig, w *world, p *parsedOp, stable func(string) bool, side string
 		return out, &failure{kind: "fetch-failed", side: side, a: out, msg: fmt.Sprintf("the datasource fails although the service answered every RPC (%v) successfully: %s\n %s = %s\n response = %s",
 			res.RPCs, clip(out.fetchFailure), side, p.text, clip(res.Body))}
 	}
+	// The engine type-checks what the datasource returned and replaces an ill-typed value by an
+	// error: such an error is the shape violation observed one step later.
+	for _, e := range resp.Errors {
+		m, _ := e.(map[string]any)
+		msg, _ := m["message"].(string)
+		for _, marker := range []string{"cannot represent", "for __typename field", "no runtime types are able to provide"} {
+			if strings.Contains(msg, marker) {
+				return out, &failure{kind: "shape", side: side, msg: fmt.Sprintf("shape: the engine rejects a value the datasource returned: %s (path %v)\n %s = %s\n response = %s", msg, m["path"], side, p.text, clip(res.Body))}
+			}
+		}
+	}
 	out.walk = newWalk(w, stable)
 	out.walk.run(p, resp)
 	if len(out.walk.viol) > 0 {
@@ -413,6 +437,7 @@ func labelOutcome(o *pbt.Rec, a, b *outcome, c opCase) {
 			nRPC = len(x.res.RPCs)
 		}
 		for _, r := range x.res.RPCs {
+			lab["rpc-method:"+r] = true
 			switch {
 			case strings.HasPrefix(r, "Lookup"):
 				lab["rpc:entity-lookup"] = true
